@@ -2,9 +2,9 @@ package checks
 
 import (
 	"bytes"
-	"strings"
 	"encoding/binary"
 	"fmt"
+	"strings"
 
 	ccpb "github.com/google/go-tdx-guest/proto/checkconfig"
 	"github.com/google/go-tdx-guest/validate"
@@ -224,6 +224,11 @@ func runC14(r *mc.Run) {
 			f.set(p, rep(val(f), n))
 			add(fmt.Sprintf("length/%s=%d", f.name, n), p)
 		}
+		for _, n := range c14FarLengths(f.len) {
+			p := &ccpb.Policy{}
+			f.set(p, rep(val(f), n))
+			add(fmt.Sprintf("length/%s=%d", f.name, n), p)
+		}
 	}
 	for pos := 0; pos < 4; pos++ {
 		for n := 0; n <= 4*48+1; n++ {
@@ -237,6 +242,14 @@ func runC14(r *mc.Run) {
 			}
 			add(fmt.Sprintf("length/rtmrs[%d]=%d", pos, n), p)
 		}
+		for _, n := range c14FarLengths(48) {
+			p := &ccpb.Policy{}
+			for i := 0; i < 4; i++ {
+				tp(p).Rtmrs = append(tp(p).Rtmrs, append([]byte(nil), raw0[48+328+48*i:48+376+48*i]...))
+			}
+			tp(p).Rtmrs[pos] = rep(raw0[48+328+48*pos:48+376+48*pos], n)
+			add(fmt.Sprintf("length/rtmrs[%d]=%d", pos, n), p)
+		}
 	}
 	for pos := 0; pos < 2; pos++ {
 		for n := 0; n <= 4*48+1; n++ {
@@ -246,6 +259,12 @@ func runC14(r *mc.Run) {
 			if n == 0 {
 				tp(p).AnyMrTd[pos] = []byte{}
 			}
+			add(fmt.Sprintf("length/any_mr_td[%d]=%d", pos, n), p)
+		}
+		for _, n := range c14FarLengths(48) {
+			p := &ccpb.Policy{}
+			tp(p).AnyMrTd = [][]byte{append([]byte(nil), raw0[48+136:48+184]...), append([]byte(nil), raw0[48+136:48+184]...)}
+			tp(p).AnyMrTd[pos] = rep(raw0[48+136:48+184], n)
 			add(fmt.Sprintf("length/any_mr_td[%d]=%d", pos, n), p)
 		}
 	}
@@ -518,4 +537,14 @@ func firstBad(p ref.Policy) string {
 		}
 	}
 	return "any_mr_td"
+}
+
+// c14FarLengths: wrong lengths far from the right one n — around every multiple of 256 up to 1024 (n + 256k is what a
+// length kept in one byte takes for n), around 65536 and 65536 + n, and 2^20 + n.
+func c14FarLengths(n int) []int {
+	var out []int
+	for k := 1; k <= 4; k++ {
+		out = append(out, 256*k-1, 256*k, 256*k+1, 256*k+n-1, 256*k+n, 256*k+n+1)
+	}
+	return append(out, 65535, 65536, 65536+n-1, 65536+n, 65536+n+1, 1<<20+n)
 }
